@@ -26,9 +26,9 @@ CHECKS = {
     "C07": ("exploration", "runtime monitoring: in-process API monitor over fontdrasil::variations with reconstruction / tent / scalar / order-independence oracles, in rlimited children under forced hash seeds",
             "Hostile location sets and value vectors are pushed through VariationModel::new, deltas_with_rounding and interpolate_from_deltas; every master must be reconstructed (1e-9 unrounded, 0.5 rounded, default exact), every tent valid, every scalar in [0,1] and equal to an independent implementation of the spec formula, and the result independent of supply order.",
             "Uses the public API the property anchors on; scalar formula re-implemented independently; axes 1-4, <= 8 masters per layout.", "DESIGN.md §5 C07"),
-    "C13": ("exploration", "runtime monitoring: fea_rs::parse::parse_root driven with corpus / mutated / grammar / soup / include-graph inputs inside journaling rlimited child processes; losslessness, diagnostic-range, totality oracles",
-            "Each input is parsed through the public entry point with an in-memory resolver under catch_unwind, RLIMIT_AS 2 GiB and a CPU limit; the child journals the input index first so a death is attributed and the run continues. Oracles: no panic / no death, token texts concatenate to the input, diagnostic ranges inside their source on char boundaries, display() total, cycles and depth > 50 reported, validate() total on error-free trees.",
-            "Token-concatenation is asserted for include-free inputs only; termination is a CPU-time bound; witnesses are delta-minimised with a bounded number of child runs.", "DESIGN.md §5 C13"),
+    "C13": ("exploration", "runtime monitoring: fea_rs::parse::parse_root driven with corpus / mutated / grammar / soup / include-graph inputs inside journaling rlimited child processes; losslessness, diagnostic-range, totality oracles; split route: error-free files re-parsed as include graphs cut at statement boundaries, diagnostics compared position by position",
+            "Each input is parsed through the public entry point with an in-memory resolver under catch_unwind, RLIMIT_AS 2 GiB and a CPU limit; the child journals the input index first so a death is attributed and the run continues. Oracles: no panic / no death, token texts concatenate to the input, diagnostic ranges inside their source on char boundaries, display() total, cycles and depth > 50 reported, validate() total on error-free trees. Split route: every error-free single file is also cut into an include graph (top-level statements, nested includes, feature-block items); the assembled tree must spell the flat text and each parse / validation diagnostic must come back with the same message at the file and offset its position moved to.",
+            "Token-concatenation is asserted for include-free inputs and for the include graphs of the split route; termination is a CPU-time bound; witnesses are delta-minimised with a bounded number of child runs.", "DESIGN.md §5 C13"),
     "C16": ("exploration", "runtime monitoring: API-level monitor of overlay_feature_variations against the source rule semantics at sampled points + end-to-end: generated designspace <rules> compiled by the CLI, FeatureVariations evaluated by an independent raw-bytes interpreter",
             "API level: random rule lists are overlaid by the real code and the returned boxes evaluated (first containing box wins) at sampled normalized locations against 'all applicable rules in order, earlier wins'. End to end: designspace rules (1-5 rules, 1-2 condition sets, conditions on 1-3 axes in design coordinates through axis maps, open-ended / nested / identical boxes, one-sided axes, rvrn and rclt) are compiled and every glyph is pushed through the font's FeatureVariations + lookups at box edges +-1/2 quanta, centres, extremes and the default. Asserted on points more than 1.5 F2Dot14 quanta from every box edge where applicable rules do not conflict; conflicting points are reported under known finding F8.",
             "Exact-edge points are counted, not asserted (the overlay drops zero-width intersections like fontTools); only normalized locations the axis can reach are sampled; Glyphs bracket layers come from the corpus (C01/C05), not from the generator.", "DESIGN.md §5 C16, §9"),
